@@ -66,3 +66,26 @@ Theorem C20_legacy_refuted :
   let w3 := record_runs false w_foreign [r0; r0; r0] in dir w3 <> Some notes /\ old w3 <> Some notes.
 Proof. exact legacy_destroys_foreign. Qed.
 Print Assumptions C20_legacy_refuted.
+
+(* Live mode removes only the temporary directory it created itself.  The directory name comes from mkstemp +
+   unlink (it did not exist then); whatever the run does (success, failure at any point), after cleanup_tempdir
+   DIR.old is untouched and the name is free again (what the recorder wrote is uftrace data: default.opts and, if
+   present, an info file that starts with the magic) ... *)
+Theorem C20_live_removes_only_its_own_directory : forall w r, dir w = None ->
+  is_uftrace_directory ((n_default_opts, File (r_opts r)) :: r_extra r) = true ->
+  old (live_run true w r) = old w /\ dir (live_run true w r) = None.
+Proof. exact live_only_own_directory. Qed.
+Print Assumptions C20_live_removes_only_its_own_directory.
+Theorem C20_live_example : is_uftrace_directory ((n_default_opts, File []) :: [(n_info, File (magic8 ++ [1; 2; 3]%N))]) = true.
+Proof. exact live_example. Qed.
+Print Assumptions C20_live_example.
+
+(* ... and if some other process took the name with foreign data before the directory was created, nothing changes *)
+Theorem C20_live_never_removes_foreign : forall w r, foreign (dir w) = true -> live_run true w r = w.
+Proof. exact live_never_removes_foreign. Qed.
+Print Assumptions C20_live_never_removes_foreign.
+
+(* the code as found (unconditional removal at exit) destroyed such a directory: repaired by 047e4ac *)
+Theorem C20_live_legacy_refuted : foreign (dir w_foreign) = true /\ live_run false w_foreign r0 <> w_foreign.
+Proof. exact live_legacy_removes_foreign. Qed.
+Print Assumptions C20_live_legacy_refuted.
